@@ -3,7 +3,7 @@
 decoding / loss functions are evaluated in memory against the rule modules; survivors are
 listed for triage (they are either equivalent mutants or gaps of the rules).
 
-usage: tools/mutation_sweep.py [--scope env|model|all] [--jobs N] [--limit K] [--out file]
+usage: tools/mutation_sweep.py [--scope env|model|model2|gen|all] [--jobs N] [--limit K] [--out file]
 """
 import argparse
 import ast
@@ -32,6 +32,19 @@ MODEL_TARGETS = {
     "rl4co/data/transforms.py": (None, ["C15"]),
     "rl4co/data/dataset.py": (None, ["C17"]),
     "rl4co/models/rl/ppo/ppo.py": ({"shared_step"}, ["C11", "C16"]),
+}
+
+
+MODEL2_TARGETS = {
+    "rl4co/models/zoo/eas/decoder.py": ({"forward_eas"}, ["C10", "C11", "C12"]),
+    "rl4co/models/rl/common/critic.py": (None, ["C16"]),
+    "rl4co/models/zoo/mdam/model.py": (None, ["C16", "C17"]),
+    "rl4co/tasks/eval.py": ({"_inner", "__call__"}, ["C15", "C12"]),
+    "rl4co/models/zoo/pomo/model.py": ({"shared_step"}, ["C12", "C16"]),
+    "rl4co/models/zoo/symnco/model.py": ({"shared_step"}, ["C12", "C16"]),
+    "rl4co/models/common/constructive/base.py": ({"forward"}, ["C11", "C10"]),
+    "rl4co/envs/scheduling/fjsp/parser.py": (None, ["C19", "C02"]),
+    "rl4co/data/utils.py": (None, ["C19"]),
 }
 
 
@@ -226,6 +239,10 @@ def main():
                     tasks += [(a.repo, rel, GEN_FUNCS, k, ["C18"]) for k in range(n)]
     if a.scope in ("model", "all"):
         for rel, (funcs, props) in MODEL_TARGETS.items():
+            n = count_mutants(ast.parse(open(os.path.join(a.repo, rel)).read()), funcs)
+            tasks += [(a.repo, rel, funcs, k, props) for k in range(n)]
+    if a.scope in ("model2", "all"):
+        for rel, (funcs, props) in MODEL2_TARGETS.items():
             n = count_mutants(ast.parse(open(os.path.join(a.repo, rel)).read()), funcs)
             tasks += [(a.repo, rel, funcs, k, props) for k in range(n)]
     if a.limit:
